@@ -53,6 +53,8 @@ def make_cases(seed, tier):
                 if b == s[i]:
                     continue
                 ms = s[:i] + bytes([b]) + s[i + 1:]
+                if gen.cost_units(ms, len(ph)) > BUDGET * 4:
+                    continue        # e.g. a cost digit turned $2b$04$ into $2b$24$: never executed
                 cases.append(("sweep/" + m, ph, ms, rng.choice(entries), "="))
         for i in range(len(s)):
             cases.append(("trunc/" + m, ph, s[:i], rng.choice(entries), "="))
@@ -146,6 +148,13 @@ def do_chunk(args):
             acc.count("successes")
             if mf:
                 viol("must-fail-succeeded", "oracle says %s but a hash was returned" % mf)
+            elif s is not None and p is not None:
+                rm = gen.result_method(s, len(p))
+                why = gen.wellformed(rm, h) if rm else "no-method"
+                if why:
+                    viol("failure-looks-like-success",
+                         "returned %r, which is not a %s hash (%s): a refused request or stale output reported as success" % (
+                             h[:120], rm, why))
             prev_kind = "success"
             acc.cls((cls, mname, e, "ok", prev_kind))
             continue
